@@ -9,6 +9,9 @@ correspondence: the REAL pcp_server() (ASan/UBSan harness, forked + chroot'ed pe
                 the scratch-built `pdcp -z DEST` binary, fed generated hostile streams, about a tenth of them
                 under a file size limit (write faults); reply classes and the complete file system below the
                 jail root are compared with `pdshmodel pcp sink`
+                symbolic links that already exist inside the destination: the model runs on the link-free view
+                (Pcp/Links.lean, `pdshmodel pcp sinkl`) when the probed receiver follows links, and treats a link as
+                something in the way when it does not (lstat/O_NOFOLLOW)
 oracle:         snapshot of the jail (destination AND everything around it) before/after: every created or
                 modified path must lie beneath the canonical destination (`pdshmodel pcp spec12`); a stream that
                 violates the record grammar must be answered with at least one error record; after a write
@@ -37,7 +40,9 @@ MANIFEST = dict(
          "initial file systems without symbolic links); the model is executed against the real receiver on "
          "generated record sequences with hostile names/sizes/modes/times, truncations and garbage, comparing reply "
          "classes and the whole file system; independently every path the real receiver created or modified is "
-         "tested for lying beneath the destination, which yields the escaping stream as replay.",
+         "tested for lying beneath the destination, which yields the escaping stream as replay.  Every run covers a "
+         "fixed systematic part (every record type x field x malformation, one stream cut at every byte, every hostile / "
+         "near-hostile name, deep nesting, sizes around the transfer block, symbolic links already inside the destination).",
     design_ref="DESIGN.md section 5 C11/C12, section 6 D13",
     note="Lean 4.33 kernel; axioms propext/Classical.choice/Quot.sound at most (audited per theorem every run); "
          "hand-written model tied to pcp_server.c by differential execution of the real source built from /repo's "
@@ -319,6 +324,10 @@ CORPUS = [
     C(b"C0644 5 ..\r\nhello\0"), C(b"C0644 5 \r..\nhello\0"), C(b"D0755 0 .\r\nC0644 5 same\nhello\0E\n"),
     C(b"T1234567890 0 1234567890 0\nD0755 0 ..\t\nT1234567890 0 1234567890 0\nC0644 5 pwned\nhello\0E\n", p=1),
     C(b"C0644 3 old\nabc\0"),
+    # existing entries without -p: contents replaced, modes left alone; with -p: modes taken over
+    C(b"D0700 0 sub\nC0600 3 deep\nxyz\0E\nC0604 3 old\nabc\0"),
+    C(b"T1234567890 0 1234567891 0\nD0700 0 sub\nT1234567890 0 1234567891 0\nC0600 3 deep\nxyz\0E\n"
+      b"T1234567890 0 1234567891 0\nC0604 3 old\nabc\0", p=1),
     C(b"T1234567890 0 1234567890 0\nD6755 0 newd\nC4755 2 f\nhi\0E\nC0644 0 \n\0", p=1),
     C(b"T1234567890 0 1234567890 0\nD2775 0 newd\nD0700 0 k\nE\nE\n", um=0o27),
     C(b"C0644 3 x\nab"),
@@ -345,6 +354,168 @@ CORPUS = [
 ]
 
 
+
+# ---------------------------------------------------------------- systematic part of every quick run
+BAD_NUMS = [b"", b"x", b"7x", b"-1", b"+1", b" 1", b"1 ", b"0x10", b"1e3", b"2147483647", b"2147483648", b"4294967295",
+            b"4294967296", b"9223372036854775807", b"9223372036854775808", b"18446744073709551615",
+            b"18446744073709551616", b"99999999999999999999999999"]
+BAD_MODES = [b"", b"644", b"06440", b"0648", b"064a", b"-644", b" 644", b"+644", b"0x1f", b"06 4", b"\xff644", b"7777",
+             b"0000", b"4755", b"1777"]
+# names a receiver must not follow out of DEST, names that only look dangerous, names with format directives (they end
+# up in error messages), long names
+SYS_NAMES = [b"..", b"/", b"a/../..", b"./", b"", b".", b"../x", b"x/..", b"/..", b"./..", b"sub/..", b"sub/../..", b"..//",
+             b"%2e%2e", b"..%2f", b"\t..", b"..;", b"..\x0b", b"a/b", b"/abs", b"//", b"..\0", b"..\0x",
+             b"a\0/../..", b"..\r", b"\r..", b".. ", b" ..", b"..\t", b"...", b"..x", b"-rf", b"--", b"%s%n%p%S%m%d%x",
+             b"%", b"E", b"T1 0 1 0", b"C0644 0 x", b"D0755 0 x", b"\1", b"\2", b"\\", b"sub", b"old", b"sub/", b"old/",
+             b"N" * 255, b"N" * 256, b"\xff\x80\xfe"]
+TRUNC_BASE = (b"T1234567890 0 1234567891 0\nD0750 0 nd\nT1234567892 0 1234567893 0\nC0640 5 f1\nhello\0E\n"
+              b"T1234567894 0 1234567895 0\nC0600 0 empty\n\0C0644 3 old\nxyz\0")
+AFTER = b"C0644 1 after\nZ\0"
+
+
+def systematic():
+    """The part of the input space EVERY run covers, whatever the seed (G1: a changed branch, boundary or error path of
+    the receiver must be noticed by a case that always runs, not by a lucky draw):
+    every record type x every field x every malformation (missing, non-digit, sign, blank, overflow at 2^31, 2^32, 2^63,
+    2^64 and beyond); T records in every position; every hostile / near-hostile / format-directive / long name in a
+    file record, in a directory record with a file inside, and meeting an existing file / directory; E records without
+    a D, more E than D; a stream that goes on after an error reply (with and without the refused file's data); declared
+    sizes at and around the transfer block with the data cut at the interesting places; enormous declared sizes with
+    short data; one rich stream truncated at EVERY byte; records at and around the size of the line buffer; nesting far
+    deeper than any fixed-size stack could hold, and paths growing beyond PATH_MAX; the option dimensions -p, -y, the
+    two ways the receiver is connected (one socket / two pipes), destination existing directory / file / missing."""
+    B = pcp.BUFSIZ
+    cs = []
+
+    def add(stream, **kw):
+        kw.setdefault("fd", len(cs) % 2)
+        cs.append(C(stream, **kw))
+    tdef = [b"1234567890", b"0", b"1234567891", b"0"]
+    # -- T record: every field, every malformation; followed by a file that would take the times, and one more file
+    for i in range(4):
+        for bad in BAD_NUMS:
+            f = list(tdef)
+            f[i] = bad
+            add(b"T" + b" ".join(f) + b"\nC0644 3 tf\nabc\0" + AFTER, p=1)
+    for t in (b"T\n", b"T1\n", b"T1 2\n", b"T1 2 3\n", b"T1 2 3 4 5\n", b"T1 2 3 4 \n", b"T1  2 3 4\n", b"T1 0 1 0\0x\n",
+              b"T1\t0 1 0\n", b"T1 999999 1 999999\n", b"T1 1000000 1 0\n", b"T1 0 1 1000000\n", b"T0 0 0 0\n",
+              b"T4102444800 0 4102444800 0\n", b"t1 0 1 0\n", b"TT1 0 1 0\n"):
+        add(t + b"C0644 3 tf\nabc\0" + AFTER, p=1)
+        add(t + b"D0755 0 td\nE\n" + AFTER, p=1)
+    # -- T records in every position
+    T = b"T1234567890 0 1234567891 0\n"
+    for st in (T, T + T, T + b"E\n", T + b"\2\n", T + b"\1msg\n" + b"C0644 1 a\nA\0", b"D0755 0 d\n" + T + b"E\n" + AFTER,
+               b"D0755 0 d\n" + T, b"D0755 0 d\nE\n" + T, b"C0644 1 a\nA\0" + T, b"C0644 3 a\nab" + T, T + b"X\n" + AFTER,
+               T + b"C0644 1 sub\n" + T + b"C0644 1 b\nB\0", T + b"D0755 0 old\n" + b"C0644 1 c\nC\0",
+               b"C0644 1 a\n" + T, b"C0644 1 a\nA" + T, T + b"D0755 0 d\n" + T + b"D0700 0 e\n" + T + b"C0600 1 f\nF\0E\nE\n" + T + AFTER):
+        for p in (0, 1):
+            add(st, p=p)
+    # -- C and D records: mode field, size field
+    for bad in BAD_MODES:
+        add(b"C" + bad + b" 3 cm\nabc\0" + AFTER)
+        add(b"D" + bad + b" 0 dm\n" + b"C0644 1 in\nI\0E\n" + AFTER, p=1)
+    for bad in BAD_NUMS:
+        add(b"C0644 " + bad + b" cs\nabc\0" + AFTER)
+        add(b"D0755 " + bad + b" ds\n" + b"C0644 1 in\nI\0E\n" + AFTER)
+    for rec in (b"C\n", b"D\n", b"C0644\n", b"C0644 \n", b"C0644 1\n", b"C0644 1 \n", b"C06441 x\n", b"C0644  1 x\n",
+                b"C0644\t1 x\n", b"C0644 1\tx\n", b"c0644 1 x\n", b" C0644 1 x\n", b"CC0644 1 x\n", b"D0755 0\n", b"D0755\n",
+                b"D0755 0 \n", b"\n", b"\0\n", b"\0", b"X\n", b"\xff\n"):
+        add(rec + b"Q\0" + AFTER)
+        add(b"D0755 0 lvl\n" + rec + b"Q\0E\n" + AFTER)
+    # -- names: as a file, as a directory with a file inside, under -p, with the destination given in different ways
+    for k, nm in enumerate(SYS_NAMES):
+        add(b"C0644 5 " + nm + b"\nhello\0" + AFTER)
+        add(b"D0755 0 " + nm + b"\nC0644 5 pwned\nhello\0E\n" + AFTER)
+        add(T + b"D0711 0 " + nm + b"\n" + T + b"C0604 5 pwned\nhello\0E\n" + T + AFTER, p=1,
+            dest=[b"dest", b"dest/", b"/o/w/dest", b"dest/sub", b"./dest"][k % 5])
+        add(b"D0755 0 in\nC0644 5 " + nm + b"\nhello\0D0700 0 " + nm + b"\nE\nE\n" + AFTER, prepop=False)
+    # -- E records
+    for st in (b"E\n", b"E\n" + AFTER, b"E\nE\n", b"D0755 0 d\nE\nE\n" + AFTER, b"D0755 0 d\nD0755 0 e\nE\nE\nE\n" + AFTER,
+               b"Exyz\n" + AFTER, b"D0755 0 d\nExyz\n" + AFTER, b"E", b"D0755 0 d\nE", b"\2\n" + AFTER, b"D0755 0 d\n\2\n" + AFTER,
+               b"\2", b"\1\n" + AFTER, b"\1", b"D0755 0 d\n" + AFTER + b"E\n" + AFTER + b"E\n" + AFTER):
+        add(st)
+        add(T + st, p=1)
+    # -- the stream goes on after an error reply
+    for bad in (b"C0644 3 sub\n", b"D0755 0 old\n", b"C0644 3 " + b"N" * 256 + b"\n", b"C0644 3 nodir/x\n", b"D0755 0 ../vdir\n"):
+        add(bad + AFTER)                                    # the sender skips the refused entry
+        add(bad + b"abc\0" + AFTER)                         # ... or sends its data anyway
+        add(bad + b"E\n" + AFTER)
+        add(b"D0755 0 d\n" + bad + AFTER + b"E\n" + AFTER, p=1)
+    # -- sizes around the transfer block, data complete / cut
+    for n in (0, 1, B - 1, B, B + 1, 2 * B - 1, 2 * B, 2 * B + 1, 3 * B):
+        data = bytes((i * 7 + n) & 255 for i in range(n))
+        add(b"C0644 %d blk\n" % n + data + b"\0" + AFTER)
+        add(b"C0644 %d old\n" % n + data + b"\0" + AFTER, p=1)           # over an existing (30 byte) file
+        add(b"C0644 %d bigold\n" % n + data + b"\0" + AFTER, bigold=True)  # over a longer file: truncated to size
+        for cut in sorted(set(x for x in (0, 1, B - 1, B, n - 1) if 0 <= x < n)):
+            add(b"C0644 %d cut\n" % n + data[:cut])
+        add(b"C0644 %d nonul\n" % n + data)
+        add(b"C0644 %d badresp\n" % n + data + b"\1" + AFTER)
+    for big in (b"2147483647", b"2147483648", b"4294967296", b"1099511627776", b"9223372036854775807"):
+        add(b"C0644 " + big + b" huge\n" + b"short data")
+        add(b"C0644 " + big + b" huge\n")
+        add(b"T1 0 1 0\nC0644 " + big + b" old\nxy", p=1)
+    # -- one rich stream cut at every byte
+    for k in range(len(TRUNC_BASE)):
+        add(TRUNC_BASE[:k], p=1)
+    for k in range(0, len(TRUNC_BASE), 3):
+        add(TRUNC_BASE[:k], p=0, y=1)
+    # -- records at and around the size of the line buffer
+    for n in (B - 13, B - 12, B - 11, B - 10, B - 9, B - 8, B, 2 * B - 11, 2 * B):
+        add(b"C0644 0 " + b"Z" * n + b"\n\0" + AFTER)
+        add(b"\1" + b"m" * n + b"\n" + AFTER)
+    add(b"T" + b"1" * (B + 5) + b" 0 1 0\n" + AFTER)
+    add(b"C0644 " + b"0" * (B + 5) + b"1 x\nA\0" + AFTER)
+    # -- depth: far beyond any fixed number of levels; paths beyond PATH_MAX
+    for depth in (40, 100):
+        add(b"".join(b"D0755 0 l\n" for _ in range(depth)) + b"C0644 4 leaf\ndeep\0" + b"E\n" * depth + AFTER, prepop=False)
+        if depth <= 40:     # (the model's file system is a chain of closures: a deep tree with times costs seconds)
+            add(T.join([b""] + [b"D0755 0 l\n"] * depth) + T + b"C0644 4 leaf\ndeep\0" + b"E\n" * (depth // 2), p=1, prepop=False)
+    add(b"".join(b"D0755 0 " + b"p" * 200 + b"\n" for _ in range(25)) + b"C0644 1 toolong\nX\0" + b"E\n" * 25 + AFTER, prepop=False)
+    # -- destination: existing directory / existing file / missing, with and without -y
+    for dest in (b"dest", b"dest/old", b"dest/missing", b"missing/x", b"victim", b".", b"..", b"dest/sub/", b"dest/old/"):
+        for y in (0, 1):
+            add(b"C0644 3 one\nabc\0", dest=dest, y=y)
+            add(b"C0644 3 one\nabc\0C0600 2 two\nxy\0", dest=dest, y=y, p=1)
+            add(b"D0755 0 dd\nC0644 3 one\nabc\0E\n", dest=dest, y=y)
+    return cs
+
+
+
+# symbolic links that ALREADY exist inside the destination: (path, target, kind of what the target is)
+LINKS = [(b"o/w/dest/ln", b"../vdir", "dir"), (b"o/w/dest/labs", b"/o/w/vdir", "dir"), (b"o/w/dest/lf", b"../victim", "file"),
+         (b"o/w/dest/sub/ln2", b"../../vdir", "dir"), (b"o/w/dest/lin", b"sub", "inside"),
+         (b"o/w/dest/dl", b"../created-through-link", "dangling"), (b"o/w/dest/lup", b"..", "ancestor"),
+         (b"o/w/dest/ltop", b"../../top", "file")]
+
+
+def link_case(path, target, kind, variant, p):
+    """a well-formed stream with PLAIN names only that meets the link"""
+    name = path.rsplit(b"/", 1)[1]
+    t = b"T1234567890 0 1234567891 0\n" if p else b""
+    pre = post = b""
+    if path.startswith(b"o/w/dest/sub/"):
+        pre, post = t + b"D0755 0 sub\n", b"E\n"
+    if variant == "enter":          # a directory record with the link's name, a file inside
+        body, block = t + b"D0700 0 " + name + b"\n" + t + b"C0644 5 pwned\nhello\0E\n", "f"
+    elif variant == "enter2":       # ... two levels
+        body, block = (t + b"D0755 0 " + name + b"\n" + t + b"D0750 0 inner\n" + t + b"C0600 3 k\nabc\0E\nE\n"), "f"
+    else:                           # a file record with the link's name
+        body, block = t + b"C0604 3 " + name + b"\nXYZ\0", "d"
+    return C(pre + body + post + t + b"C0644 2 after\nok\0", p=p, links=[(path, target)], link_block=block,
+             # the translation to the link-free model covers links to existing things outside the destination
+             oracle_only=kind in ("dangling", "ancestor"))
+
+
+def link_cases():
+    cs = []
+    for path, target, kind in LINKS:
+        for variant in ("enter", "enter2", "file"):
+            for p in (0, 1):
+                cs.append(link_case(path, target, kind, variant, p))
+    return cs
+
+
 # --------------------------------------------------------------------------------------- running
 def op_line(jail, c):
     return "sink %s /%s %s %d %d %o %d %d %s" % (jail, CWD.decode(), hx(c["dest"]), c["p"], c["y"], c["um"], c["fd"],
@@ -352,23 +523,54 @@ def op_line(jail, c):
 
 
 def model_line(c, ents, cnt, var):
-    return "sink %d %d %o %d %d %d %d %s %s %s %s" % (c["p"], c["y"], c["um"], cnt, var["rule"], var["dch"],
-                                                      c.get("fsz", 0), hx(CWD), hx(c["dest"]), hx(c["stream"]),
-                                                      " ".join(e.token() for e in ents))
+    op, toks = "sink", []
+    for e in ents:
+        if e.kind != "l":
+            toks.append(e.token())
+        elif var.get("follow", 1):
+            # the receiver follows links: the model runs on the link-free view (Pcp/Links.lean graftAll)
+            op = "sinkl"
+            toks.append("%s:l:777:%d:h%s" % (hx(e.path), e.mtime, link_target_canon(e.path, e.data).hex()))
+        else:
+            # lstat/O_NOFOLLOW: a link is something in the way -- of a directory record like a file, of a file record
+            # like a directory
+            toks.append(Ent(e.path, c.get("link_block", "f"), 0o777, e.mtime, b"").token())
+    return "%s %d %d %o %d %d %d %d %s %s %s %s" % (op, c["p"], c["y"], c["um"], cnt, var["rule"], var["dch"],
+                                                    c.get("fsz", 0), hx(CWD), hx(c["dest"]), hx(c["stream"]), " ".join(toks))
 
 
 _CAND = re.compile(rb"[CD][0-7]{4} \d* ([^\n\0]*)")
 
 
-def escape_signature(stream):
-    """narrow class of the D13 finding: the stream contains a control record whose name has a `/` or is `..`"""
+def escape_signature(stream, c=None):
+    """narrow class of the D13 finding: the stream contains a control record whose name has a `/` or is `..`;
+    of F12-SYMLINK-FOLLOW: every received name is plain, and a symbolic link was waiting inside the destination"""
     for m in _CAND.finditer(stream):
         if pcp.hostile_name(m.group(1)):
             return "escape:received-name-with-slash-or-dotdot"
+    if c is not None and c.get("links"):
+        return "escape:through-symlink-inside-destination"
     return "escape:other"
 
 
+def link_entries(c):
+    """symbolic links that exist inside the destination before the copy (case field `links`: (path, target))"""
+    return [Ent(path, "l", 0o777, OLD + 40 + i, target) for i, (path, target) in enumerate(c.get("links") or [])]
+
+
+def link_target_canon(path, target):
+    """canonical path (relative to the jail root) of a link's target"""
+    return pcp.lexnorm(path.rsplit(b"/", 1)[0] if b"/" in path else b"", target)
+
+
 def case_json(c):
+    if c.get("links"):
+        return dict(_case_json(c), links=[[a.decode("latin-1"), b.decode("latin-1")] for a, b in c["links"]],
+                    oracle_only=bool(c.get("oracle_only")), link_block=c.get("link_block", "f"))
+    return _case_json(c)
+
+
+def _case_json(c):
     return dict(stream_hex=c["stream"].hex(), stream_text=c["stream"][:200].decode("latin-1"),
                 dest=c["dest"].decode("latin-1"), cwd="/" + CWD.decode(), preserve=c["p"], target_is_dir=c["y"],
                 umask="%o" % c["um"], fdmode=c["fd"], prepopulated=c["prepop"], destmode="%o" % c["destmode"],
@@ -383,14 +585,26 @@ def run_cases(ctx, exe, cases, cnt, var, cov, dist, distinct, tag="pcp_server()"
     os.makedirs(base)
     jails, ents_l = [], []
     for k, c in enumerate(cases):
-        ents = jail_entries(c["prepop"], c["destmode"], c.get("bigold", False))
+        ents = jail_entries(c["prepop"], c["destmode"], c.get("bigold", False)) + link_entries(c)
         j = os.path.join(base, "j%d" % k)
         pcp.build_jail(j, ents)
         jails.append(j)
         ents_l.append(ents)
     t0 = int(time.time())
-    impl = run_batch([exe], [[op_line(j, c)] for j, c in zip(jails, cases)], timeout=1200,
-                     env=dict(os.environ, ASAN_OPTIONS="detect_leaks=0"))
+    env = dict(os.environ, ASAN_OPTIONS="detect_leaks=0")
+    impl = run_batch([exe], [[op_line(j, c)] for j, c in zip(jails, cases)], timeout=1800, env=env)
+
+    def rerun(idx):
+        for k in idx:
+            shutil.rmtree(jails[k], ignore_errors=True)
+            pcp.build_jail(jails[k], ents_l[k])
+        return run_batch([exe], [[op_line(jails[k], cases[k])] for k in idx], timeout=1800, env=env)
+
+    def sig_of(a):
+        return pcp.fields(a[0][0]).get("sig") if a[0] else None
+    nre = pcp.retry_timeouts(impl, lambda a: sig_of(a) in ("998", "999"), lambda a: sig_of(a) == "997", rerun)
+    if nre:
+        dist["timeouts_retried"] = dist.get("timeouts_retried", 0) + nre
     mlines = ctx.model("pcp", "".join(model_line(c, e, cnt, var) + "\n" for c, e in zip(cases, ents_l)))
     judge(ctx, cases, jails, ents_l, [a[0] if a else "" for a, _ in impl], [cr for _, cr in impl], mlines, t0,
           cov, dist, distinct, tag, shrinker=lambda c, sig: shrink(ctx, exe, c, sig))
@@ -431,7 +645,7 @@ def oracle_only(c, f, snap, ents, t0):
     dcanon = pcp.lexnorm(CWD, c["dest"])
     ch = pcp.changed_paths({e.path: e for e in ents}, snap, t0)
     if any(not (dcanon == b"" or q == dcanon or q.startswith(dcanon + b"/")) for q in ch):
-        sigs.add(escape_signature(c["stream"]))
+        sigs.add(escape_signature(c["stream"], c))
     wf, _ = pcp.analyse(c["stream"])
     if not wf and not any(r.startswith("E:") for r in replies):
         sigs.add("malformed-unanswered")
@@ -455,7 +669,7 @@ def shrink(ctx, exe, c, sig):
     def fails(ps):
         c2 = dict(c, stream=b"".join(ps))
         shutil.rmtree(j, ignore_errors=True)
-        ents = jail_entries(c2["prepop"], c2["destmode"], c2.get("bigold", False))
+        ents = jail_entries(c2["prepop"], c2["destmode"], c2.get("bigold", False)) + link_entries(c2)
         pcp.build_jail(j, ents)
         t0 = int(time.time())
         (ans, crash), = run_batch([exe], [[op_line(j, c2)]], timeout=60, env=dict(os.environ, ASAN_OPTIONS="detect_leaks=0"))
@@ -539,7 +753,7 @@ def judge(ctx, cases, jails, ents_l, answers, crashes, mlines, t0, cov, dist, di
             esc = [pcp.unhx(x).decode("latin-1") for x in sp.split()[1].split(",")]
             cj["escaped_paths"] = esc[:10]
             cj["destination_canonical"] = "/" + dcanon.decode("latin-1")
-            esig = escape_signature(c["stream"])
+            esig = escape_signature(c["stream"], c)
             ctx.offender(esig, "the receiver created or modified %s outside its destination /%s" %
                          (", ".join("/" + e for e in esc[:4]), dcanon.decode("latin-1")),
                          dict(small(c, esig), receiver=tag, escaped_paths=esc[:10],
@@ -561,6 +775,9 @@ def judge(ctx, cases, jails, ents_l, answers, crashes, mlines, t0, cov, dist, di
             ctx.offender("reply-garbled", "the reply stream is not a sequence of acknowledgements and error records: %s"
                          % ",".join(replies[:20]), cj)
         # ---- correspondence: model vs implementation
+        if c.get("oracle_only"):
+            dist["oracle_only_cases"] = dist.get("oracle_only_cases", 0) + 1
+            continue
         try:
             m = pcp.parse_model(mlines[k])
         except Exception as e:
@@ -575,7 +792,14 @@ def judge(ctx, cases, jails, ents_l, answers, crashes, mlines, t0, cov, dist, di
                              "reply %d: impl %s model %s" % (i, replies[i:i + 3], m["replies"][i:i + 3]), cj)
             dist["model_mismatch"] += 1
             continue
-        diffs = pcp.compare_fs(m["fs"], snaps[k], t0)
+        snap_m = snaps[k]
+        if c.get("links"):
+            # the links themselves are not nodes of the model's file system (a receiver cannot change them: `changed`)
+            dist["link_cases"] = dist.get("link_cases", 0) + 1
+            lp = set(path for path, _ in c["links"])
+            snap_m = {q: r for q, r in snaps[k].items() if not (q in lp and r["kind"] == "l")}
+            m["fs"] = {q: r for q, r in m["fs"].items() if q not in lp}
+        diffs = pcp.compare_fs(m["fs"], snap_m, t0)
         if diffs:
             dist["model_mismatch"] += 1
             ctx.disagreement("pcp sink file system (%s)" % tag, "; ".join(diffs[:4]), cj)
@@ -592,11 +816,11 @@ def probe_variant(ctx, exe):
     """which receiver is in /repo?  Probed, never configured:
     rule 0 = no name validation (code as found), 1 = names with `/` and the name `..` rejected, 2 = scp rule (also
     the empty name and `.`); dch = with -p a new directory is chmod'ed after mkdir (repair of F11-DIRMODE-SETID)"""
-    def one(stream, p=0):
+    def one(stream, p=0, links=None):
         j = os.path.join(ctx.scratch, "probe_jail")
         shutil.rmtree(j, ignore_errors=True)
-        pcp.build_jail(j, jail_entries(False, 0o755))
-        c = C(stream, prepop=False, p=p)
+        c = C(stream, prepop=False, p=p, links=links)
+        pcp.build_jail(j, jail_entries(False, 0o755) + link_entries(c))
         (ans, crash), = run_batch([exe], [[op_line(j, c)]], env=dict(os.environ, ASAN_OPTIONS="detect_leaks=0"))
         snap = pcp.snapshot(j)
         shutil.rmtree(j, ignore_errors=True)
@@ -612,12 +836,37 @@ def probe_variant(ctx, exe):
         rule = 2 if any(rej) else 1
     _, snap = one(b"D6755 0 pd\nE\n", p=1)
     dch = int(snap.get(b"o/w/dest/pd", {}).get("mode") == 0o6755)
-    return dict(rule=rule, dch=dch)
+    # does the receiver follow a symbolic link that is already inside the destination?
+    _, snap = one(b"D0755 0 ln\nC0644 1 pdshverif_probe\nX\0E\n", links=[(b"o/w/dest/ln", b"../vdir")])
+    follow = int(b"o/w/vdir/pdshverif_probe" in snap)
+    return dict(rule=rule, dch=dch, follow=follow)
+
+
+def probe_cnt(ctx, exe, fallback):
+    """bp->cnt, the size of the receiver's write-coalescing buffer, measured on the real receiver: a file announced
+    with N+1 bytes of which only N arrive -- what has reached the disk when the input ends is the largest multiple of
+    bp->cnt below N.  (Not computed from st_blksize with a copy of _allocbuf's formula: a maintainer may change it.)"""
+    sizes = {}
+    for n in (2 ** 20 - 1, 3 * 2 ** 18 - 1):
+        j = os.path.join(ctx.scratch, "probe_jail")
+        shutil.rmtree(j, ignore_errors=True)
+        pcp.build_jail(j, jail_entries(False, 0o755))
+        c = C(b"C0644 %d pdshverif_cnt\n" % (n + 1) + b"x" * n, prepop=False)
+        run_batch([exe], [[op_line(j, c)]], env=dict(os.environ, ASAN_OPTIONS="detect_leaks=0"))
+        try:
+            sizes[n] = os.path.getsize(os.path.join(j, "o/w/dest/pdshverif_cnt"))
+        except OSError:
+            sizes[n] = None
+        shutil.rmtree(j, ignore_errors=True)
+    cands = [c_ for c_ in range(pcp.BUFSIZ, 2 ** 20 + 1, pcp.BUFSIZ)
+             if all(w is not None and (n // c_) * c_ == w for n, w in sizes.items())]
+    return cands[0] if cands else fallback
 
 
 def variant_text(var):
-    return "names: %s; chmod after mkdir with -p: %s" % (
-        ["no validation (code as found)", "`/` and `..` rejected", "scp rule"][var["rule"]], "yes" if var["dch"] else "no")
+    return "names: %s; chmod after mkdir with -p: %s; symbolic links inside the destination: %s" % (
+        ["no validation (code as found)", "`/` and `..` rejected", "scp rule"][var["rule"]], "yes" if var["dch"] else "no",
+        "followed (code as found)" if var.get("follow", 1) else "refused (lstat/O_NOFOLLOW)")
 
 
 def child_setup(um, fsz):
@@ -646,6 +895,7 @@ def run_binary(ctx, cases, cnt, var, cov, dist, distinct):
     use = [c for c in cases if c["stream"].count(b"..") <= 2 and c["dest"][:1] != b"/" and c["dest"].count(b"..") == 0]
     jails, ents_l, answers, crashes = [], [], [], []
     t0 = int(time.time())
+    hangs = 0
     for k, c in enumerate(use):
         ents = jail_entries(c["prepop"], c["destmode"], c.get("bigold", False))
         j = os.path.join(base, "j%d" % k)
@@ -655,19 +905,28 @@ def run_binary(ctx, cases, cnt, var, cov, dist, distinct):
         args = [pdcp_bin] + (["-p"] if c["p"] else []) + (["-y"] if c["y"] else []) + ["-z", os.fsdecode(c["dest"])]
         if c["dest"] == b"":
             args = None
-        try:
-            if args is None:
-                raise ValueError
-            p = subprocess.run(args, input=c["stream"], stdout=subprocess.PIPE, stderr=subprocess.PIPE, timeout=30,
-                               cwd=os.path.join(j, CWD.decode()),
-                               preexec_fn=lambda um=c["um"], fsz=c.get("fsz", 0): child_setup(um, fsz))
-            answers.append("rc=%d sig=%d san=0 replies=%s err=%s" % (max(p.returncode, 0), max(-p.returncode, 0),
-                                                                    hx(p.stdout), hx(p.stderr[-300:])))
-        except subprocess.TimeoutExpired:
-            answers.append("rc=-1 sig=998 san=0 replies=- err=-")
-        except ValueError:
-            answers.append(None)
         crashes.append(None)
+        if args is None or hangs >= 2:
+            answers.append(None)
+            continue
+        for attempt in (0, 1):
+            # a time-out alone is re-tried once (fresh jail) before it is reported
+            try:
+                p = subprocess.run(args, input=c["stream"], stdout=subprocess.PIPE, stderr=subprocess.PIPE, timeout=30,
+                                   cwd=os.path.join(j, CWD.decode()),
+                                   preexec_fn=lambda um=c["um"], fsz=c.get("fsz", 0): child_setup(um, fsz))
+                answers.append("rc=%d sig=%d san=0 replies=%s err=%s" % (max(p.returncode, 0), max(-p.returncode, 0),
+                                                                        hx(p.stdout), hx(p.stderr[-300:])))
+                break
+            except subprocess.TimeoutExpired:
+                if attempt == 0 and hangs == 0:
+                    dist["timeouts_retried"] = dist.get("timeouts_retried", 0) + 1
+                    shutil.rmtree(j, ignore_errors=True)
+                    pcp.build_jail(j, ents)
+                    continue
+                hangs += 1
+                answers.append("rc=-1 sig=998 san=0 replies=- err=-")
+                break
     keep = [i for i, a in enumerate(answers) if a is not None]
     use, jails, ents_l, answers, crashes = ([x[i] for i in keep] for x in (use, jails, ents_l, answers, crashes))
     mlines = ctx.model("pcp", "".join(model_line(c, e, cnt, var) + "\n" for c, e in zip(use, ents_l)))
@@ -693,20 +952,26 @@ def run(ctx):
                    "byte flip/deletion/insertion, plus pure garbage; destination given as dir, dir/, absolute, "
                    "subdir, existing file, missing name; -p/-y/umask/socket-or-pipes varied; about 10% of the cases run "
                    "the receiver under a file size limit (write faults in the middle of multi-block files, followed by "
-                   "files that fit); jail around the "
+                   "files that fit); symbolic links that already exist inside the destination (to a directory, a file, "
+                   "nothing, an ancestor; relative and absolute) met by plain received names; a fixed systematic part in every "
+                   "run (see `systematic`); jail around the "
                    "destination holds victim files/dirs.  non-trivial = the stream starts with >= 1 syntactically "
                    "valid control record; distinct = distinct (stream, dest, options)"}
     dist = {"reply_classes": {}, "escapes": 0, "malformed": 0, "crash": 0, "model_mismatch": 0}
     distinct = set()
     if ok:
         blk = int(subprocess.run([exe, "--blksize", ctx.scratch], stdout=subprocess.PIPE).stdout.decode().strip() or 0)
-        cnt = ((blk + pcp.BUFSIZ - 1) // pcp.BUFSIZ) * pcp.BUFSIZ or pcp.BUFSIZ
+        cnt = probe_cnt(ctx, exe, ((blk + pcp.BUFSIZ - 1) // pcp.BUFSIZ) * pcp.BUFSIZ or pcp.BUFSIZ)
         var = probe_variant(ctx, exe)
         dist["receiver_variant"] = variant_text(var)
         dist["bp_cnt"] = cnt
         ctx.log("receiver variant:", dist["receiver_variant"], "bp->cnt =", cnt)
-        n = 1500 if ctx.quick() else 40000
-        cases = list(CORPUS)
+        n = 1000 if ctx.quick() else 40000
+        sysc = systematic()
+        dist["systematic_cases"] = len(sysc)
+        lc = link_cases()
+        dist["symlink_cases_pinned"] = len(lc)
+        cases = list(CORPUS) + sysc + lc
         if ctx.replay:
             import json
             rc = json.load(open(ctx.replay)).get("case", {})
@@ -714,7 +979,9 @@ def run(ctx):
                 cases.insert(0, C(bytes.fromhex(rc["stream_hex"]), dest=rc["dest"].encode("latin-1"),
                                   p=rc["preserve"], y=rc["target_is_dir"], um=int(rc["umask"], 8), fd=rc["fdmode"],
                                   prepop=rc["prepopulated"], destmode=int(rc["destmode"], 8),
-                                  fsz=rc.get("file_size_limit", 0), bigold=rc.get("bigold", False)))
+                                  fsz=rc.get("file_size_limit", 0), bigold=rc.get("bigold", False),
+                                  links=[(a.encode("latin-1"), b.encode("latin-1")) for a, b in rc["links"]] if rc.get("links") else None,
+                                  oracle_only=rc.get("oracle_only", False), link_block=rc.get("link_block", "f")))
         cases += [gen_case(rng) for _ in range(n)]
         import random
         rng2 = random.Random(ctx.seed * 7919 + 12)       # own stream: the cases above stay what they were
@@ -731,7 +998,10 @@ def run(ctx):
     cov["traces_validated_against_impl"] = cov["evaluations"]
     return ctx.finish(
         LEVEL, cov,
-        assumptions=["no symbolic links below or around the destination (C12 reading, DESIGN section 6)",
+        assumptions=["symbolic links: those that already exist INSIDE the destination are part of the check (pinned cases; the "
+                     "receiver as found follows them: finding F12-SYMLINK-FOLLOW; model by translation, Pcp/Links.lean, for "
+                     "links to existing files/directories outside the destination; dangling links and links to an ancestor of "
+                     "the destination: oracle only); the destination the user gives is itself not a link",
                      "the receiver runs as root: permission checks never fail; I/O errors only as injected write faults "
                      "(RLIMIT_FSIZE with SIGXFSZ ignored: short write / EFBIG, ftruncate EFBIG)",
                      "Linux path resolution, mkdir/open(O_CREAT)/chmod/utimes/ftruncate semantics as in Pcp/FS.lean",
